@@ -180,18 +180,6 @@ Section NewStepProofs.
   Qed.
 End NewStepProofs.
 
-(* model variant (registration without the validation pass: the order before the repair of D17, the
-   one the tied model takes when gen_add_common_prevalidates = false): the refusal comes out of the
-   registration loop, after the first write, and the parameter summary has changed *)
-Lemma model_variant_register_first_refusal_is_late_l :
-  exists valid unknown s cells s',
-    check_parameter valid s 5 = true /\
-    add_standard_register_first valid unknown s cells = (s', Refuse VM1 (Via USAGE)) /\ s' <> s.
-Proof.
-  exists (fun h => (0 <=? h) && (h <=? 5)), (fun h => h =? 5), (mknew [0] 0 0), [5; 99], (mknew [0; 5] 1 0).
-  split; [reflexivity|]. split; [vm_compute; reflexivity | discriminate].
-Qed.
-
 (* an accepted frequency vector is free of NaN, non-negative and strictly ascending *)
 Inductive ascending : list dval -> Prop :=
 | asc_nil : ascending []
